@@ -8,6 +8,9 @@
 
 mod alloc;
 mod canon;
+mod h1ref;
+mod h2gen;
+mod p0fref;
 mod pkt;
 mod pool;
 mod props;
@@ -16,6 +19,7 @@ mod scenario;
 mod sha256;
 mod siggen;
 mod tcpref;
+mod tlsgen;
 
 use rt::Tier;
 
